@@ -17,7 +17,8 @@ Holds(c, r) ==
          [] c = "C14_OneListPerResult" -> ~done \/ o.declared_n = 0 \/ Len(o.lens) = o.declared_n
          [] c = "C14_NonEmpty"         -> ~done \/ \A i \in 1..Len(o.lens) : o.lens[i] > 0
          [] c = "C14_Assignable"       -> ~done \/ o.not_assignable = <<>>
-         [] c = "C14_SameOnEveryCall"  -> ~done \/ o.again_equal
+         (* ... asked twice in a row, and once more after every other function of every loaded package has been asked *)
+         [] c = "C14_SameOnEveryCall"  -> ~done \/ (o.again_equal /\ o.later_equal)
          [] c = "C14_LiteralsExact"    -> ~done \/ r.case.shape \notin DOMAIN LiteralOnly \/ o.alts = LiteralOnly[r.case.shape]
 
 Failed(r) == {c \in Conjuncts : ~Holds(c, r)}
